@@ -6,3 +6,4 @@ CONSTANTS
   SeedTagDefs = {"E"}
   MaxMods = 3
   Mutation = ""
+CHECK_DEADLOCK FALSE
